@@ -314,6 +314,7 @@ class Exec:
             self.docs[rel] = (simproc.read_bytes(full), ino)
         self.violation: dict[str, Any] | None = None
         self.n_obs = 0
+        self._inodes: dict[int, set[str]] | None = None
         self.probes: dict[str, int] = {}
         self.ip = simproc.Interposer(root, faults, knobs, observer=self._observe if new is not None else None)
 
@@ -327,6 +328,19 @@ class Exec:
     def _observe(self, o: simproc.Op) -> None:
         self.check_state("op", o)
 
+    def _inode_map(self) -> dict[int, set[str]]:
+        """inode -> document names that reach it (directly, through a link, or as the backup)."""
+        m: dict[int, set[str]] = {}
+        for rel in self.docs:
+            full = os.path.join(self.root, rel)
+            for p in (full, full + ".orig"):
+                for fn in ("lstat", "stat"):
+                    try:
+                        m.setdefault(simproc._REAL[fn](p).st_ino, set()).add(rel)
+                    except OSError:
+                        pass
+        return m
+
     def _probe(self, name: str) -> None:
         self.probes[name] = self.probes.get(name, 0) + 1
 
@@ -336,7 +350,19 @@ class Exec:
         self.n_obs += 1
         case = self.case
         out_rel = case["inv"].get("output")
-        for rel, target in self.links.items():
+        # A data write through a descriptor changes the one inode it is open on and nothing else,
+        # and the state after the previous operation has been verified: only names on that
+        # inode need to be looked at again (exact, not a heuristic; it makes byte-wise chunking
+        # of large documents affordable).
+        wino = o.ino if (o is not None and o.op in ("write", "os-write") and when == "op") else None
+        only: set[str] | None = None
+        if wino and self._inodes is not None:
+            only = self._inodes.get(wino, set())
+            if not only and not (case["inv"].get("output") and case["inv"].get("output") not in self.docs):
+                return
+        else:
+            wino = None
+        for rel, target in ({} if wino else self.links).items():
             full = os.path.join(self.root, rel)
             try:
                 now = simproc._REAL["readlink"](full)
@@ -347,6 +373,8 @@ class Exec:
                 return
         for rel, (old, ino0) in self.docs.items():
             full = os.path.join(self.root, rel)
+            if only is not None and rel not in only:
+                continue
             cur = simproc.read_bytes(full)
             new = self.new.get(rel, old)
             kind = None
@@ -389,6 +417,8 @@ class Exec:
                     "cur_len": None if cur is None else len(cur),
                 }
                 return
+        if only is None:
+            self._inodes = self._inode_map()
         # the -o output path when it did not exist before
         if out_rel and out_rel not in self.docs:
             cur = simproc.read_bytes(os.path.join(self.root, out_rel))
@@ -481,11 +511,13 @@ def gen_knob_variants(rng: random.Random) -> list[dict[str, Any]]:
 
 
 def run_case(env: Env, case: dict[str, Any], want_trace: bool = False) -> dict[str, Any]:
-    scratch = tempfile.mkdtemp(prefix="dst-c14-" + os.environ.get("VERIF_RUN_TAG", "x") + "-", dir=SCRATCH_BASE)
+    outer = tempfile.mkdtemp(prefix="dst-c14-" + os.environ.get("VERIF_RUN_TAG", "x") + "-", dir=SCRATCH_BASE)
+    scratch = os.path.join(outer, "s", "s")  # nested, so that a defective `..` resolution under test stays inside the scratch directory
     try:
+        os.makedirs(scratch)
         return _run_case(env, case, scratch, want_trace)
     finally:
-        shutil.rmtree(scratch, ignore_errors=True)
+        shutil.rmtree(outer, ignore_errors=True)
 
 
 def _exec_once(case: dict[str, Any], scratch: str, faults: list[dict[str, Any]], knobs: dict[str, Any], new: dict[str, bytes | None] | None) -> tuple[Exec, simproc.ProcResult]:
